@@ -78,6 +78,12 @@ CHECKS = {
    design_ref="DESIGN.md section 4 C03, section 9",
    note="Assumed: atan2 odd in its first argument incl. sign of zero, sin odd, cos even (natives); at float64 the lemmas about division and negated addition/subtraction time out and are ASSUMED there (proved at float32) - float64 identities are proofs relative to them. NOT claimed (attempted; abstract counter-models that do not replay on the real code): conj of log/log1p/log2/log10/atanh, oddness of atan/atanh, evenness of square, the zero-component lattice, real-valued algorithms, log10/log2 = log/ln b.",
    technique="contract-based deductive verification: identities over the traced+expanded DAG in QF_UFFP (uninterpreted arithmetic + ground-instantiated, separately proved IEEE lemmas), z3"),
+ "C12": dict(
+   category="proof",
+   text="Exact-sum clause of the statement, verified modularly in exact arithmetic: the real apmath functions vecsum, vecsumerr, renormalize (eager and functional, fast and safe, with and without a size limit), nztopk, negate, add, subtract, multiply and square run on ring elements with two_sum / quick_two_sum / two_prod replaced by their contracts (s + t = x + y, p + e = x*y with s, p arbitrary - discharged under C10); every zero test on an item forks exhaustively; on every path the exact sum of the output equals the exact sum / difference / product / square of the input, and with a size limit k the output is the first k items of the unlimited output. Holds for every floating-point format at once.",
+   design_ref="DESIGN.md section 4 C12",
+   note="List lengths are enumerated (renormalisation 1..4 items quick / 1..6 thorough; add/subtract up to 2+2 terms; products up to 2x1) - a stated bound; values are universally quantified. NOT decided: the normal-form clause (decreasing magnitudes, non-overlap after two passes) and the 1-ulp bound of products/squares (bit-precise reasoning over ~30 chained additions, not within reach). The make_api dispatch wrapper is bypassed.",
+   technique="contract-based deductive verification, modular: real functions on ring elements with callee contracts, exhaustive path forking on zero tests, postcondition = ring identity decided by canonical forms"),
 }
 NA_PENDING = "check not built yet in this session (planned, see DESIGN.md section 4)"
 NA = {
@@ -112,7 +118,7 @@ def main():
         {"name": "E1 dagfp", "path": "vf/dagfp.py", "serves_properties": ["C03"], "kind_free_text": "repository tracer + expansion to primitive kinds; DAG -> SMT with uninterpreted arithmetic; lemma library and ground instantiation"},
         {"name": "E2 symrun", "path": "vf/symrun.py", "serves_properties": ["C07", "C14", "C15", "C18", "C19"], "kind_free_text": "runs real code objects on symbolic NumPy scalars / ints with shadowed builtins; decision-prefix path forking; per-path VCs"},
         {"name": "E3 symexpr", "path": "vf/symexpr.py", "serves_properties": ["C04"], "kind_free_text": "abstract expressions with holes: lazy shape refinement, aliasing, key-order and inference-knowledge forks over the real Rewriter/Expr code; vf/denote.py semantics; vf/witness.py native replay"},
-        {"name": "E4 ring", "path": "vf/ring.py", "serves_properties": ["C16"], "kind_free_text": "canonical-form polynomial/rational-function arithmetic with path forking on zero tests"},
+        {"name": "E4 ring", "path": "vf/ring.py", "serves_properties": ["C12", "C16"], "kind_free_text": "canonical-form polynomial/rational-function arithmetic with path forking on zero tests"},
       ],
       "checks": checks,
       "not_applicable": na,
